@@ -66,4 +66,11 @@ theorem unmarshal_marshal_exact (p : Proto) (strict : Bool) (ty : Ty) (v : Val) 
     (hx : Exact ty v) : unmarshal p strict ty (marshal p ty v) = .ok v :=
   Lemmas.ThriftRoundTrip.unmarshal_marshal_exact_partial p strict ty v h hx
 
+open Lemmas.ThriftRoundTrip in
+/-- the protocols decode each other's logical content to the same value: the result of the round trip does not depend
+on the protocol setting nor on strictness -/
+theorem protocols_agree (p₁ p₂ : Proto) (s₁ s₂ : Bool) (ty : Ty) (v : Val) (h : RTS ty v = true) :
+    unmarshal p₁ s₁ ty (marshal p₁ ty v) = unmarshal p₂ s₂ ty (marshal p₂ ty v) := by
+  rw [Lemmas.ThriftRoundTrip.unmarshal_marshal p₁ s₁ ty v h, Lemmas.ThriftRoundTrip.unmarshal_marshal p₂ s₂ ty v h]
+
 end Enc.Props.C04
